@@ -1384,6 +1384,10 @@ Hwrite(int32 access_id, int32 length, const void *data)
     if (access_rec == (accrec_t *)NULL || !(access_rec->access & DFACC_WRITE) || data == NULL)
         HGOTO_ERROR(DFE_ARGS, FAIL);
 
+    /* positions and lengths are signed 32-bit: the write must end at or below 2^31-1 in the element */
+    if (length > INT32_MAX - access_rec->posn)
+        HGOTO_ERROR(DFE_EXCEEDMAX, FAIL);
+
     /* if special elt, call special write function */
     if (access_rec->special) {
         ret_value = (*access_rec->special_func->write)(access_rec, length, data);
@@ -1430,6 +1434,10 @@ Hwrite(int32 access_id, int32 length, const void *data)
                 HGOTO_ERROR(DFE_WRITEERROR, FAIL);
             goto done; /* we're finished, wrap things up */
         }              /* end if */
+
+        /* the element may only grow while it still ends at or below 2^31-1 in the file */
+        if (access_rec->posn + length > INT32_MAX - data_off)
+            HGOTO_ERROR(DFE_EXCEEDMAX, FAIL);
 
         /* Update the DD with the new length. Note argument of '-2' for
            the offset parameter means not to change the offset in the DD. */
